@@ -642,7 +642,10 @@ func C11(c *core.Ctx) {
 			pair.F["query"] = bytesVal(pc.qry)
 			pair.F["refname"] = eval.S("ref")
 			pair.F["queryname"] = eval.S("qry")
-			pair.F["idx"] = eval.K(4)
+			// in a SAM file the first query has input index 0; in the alignment `variants` reads, the reference comes
+			// first and the same query has index 1 (alternating with a query further down the file)
+			samIdx := int64(4 * (n % 2))
+			pair.F["idx"] = eval.K(samIdx)
 			regs, inter := mkRegs()
 			outS := &eval.ChanVal{Name: "out"}
 			errS := &eval.ChanVal{Name: "err"}
@@ -670,12 +673,26 @@ func C11(c *core.Ctx) {
 			regs2, inter2 := mkRegs()
 			outF := &eval.ChanVal{Name: "out"}
 			errF := &eval.ChanVal{Name: "err"}
-			_, err = ev2.CallFunc(fasW, mkRec("ref", 0, pc.ref), regs2, inter2, ot[0], ot[1], &eval.ChanVal{Name: "in", Feed: []eval.Value{mkRec("qry", 4, pc.qry)}}, outF, errF)
+			_, err = ev2.CallFunc(fasW, mkRec("ref", 0, pc.ref), regs2, inter2, ot[0], ot[1], &eval.ChanVal{Name: "in", Feed: []eval.Value{mkRec("qry", samIdx+1, pc.qry)}}, outF, errF)
 			if err != nil || len(outF.Sent) != 1 || len(errF.Sent) > 0 {
 				bad = append(bad, fmt.Sprintf("%s/%s: FASTA path undecided: %v", pc.ref, pc.qry, err))
 				continue
 			}
-			a, b := eval.Show(outS.Sent[0]), eval.Show(outF.Sent[0])
+			showNoIdx := func(v eval.Value, idx int64) string {
+				if sv, ok := v.(*eval.StructVal); ok {
+					if got, ok := linConst(sv.F["Idx"]); !ok || got != idx {
+						return fmt.Sprintf("(input index %s, want %d) %s", eval.Show(sv.F["Idx"]), idx, eval.Show(v))
+					}
+					cp := &eval.StructVal{F: map[string]eval.Value{}}
+					for k, x := range sv.F {
+						cp.F[k] = x
+					}
+					cp.F["Idx"] = eval.K(0)
+					return eval.Show(cp)
+				}
+				return eval.Show(v)
+			}
+			a, b := showNoIdx(outS.Sent[0], samIdx), showNoIdx(outF.Sent[0], samIdx+1)
 			if a != b {
 				bad = append(bad, fmt.Sprintf("ref %s query %s: sam variants gives %s, variants gives %s", pc.ref, pc.qry, firstN(a, 300), firstN(b, 300)))
 			}
@@ -686,6 +703,7 @@ func C11(c *core.Ctx) {
 	}
 	c.Count("pairs_evaluated", n)
 	c.Ob("R1/workers-agree-on-every-pair", len(bad) == 0, samW.Pos(), "%s", first(bad, 3))
+	checkReaders(c, tabs, "R9/", true, "findReference") // the record `variants` compares everything with is the one named, as in sam variants
 	checkSamWorkerStateless(c, tabs, "R1")
 	checkFastaWorkerStateless(c, tabs, "R1")
 	c11Structure(c)
